@@ -3,7 +3,7 @@ from tools.extract import Unit, Rw
 from tools.krun import Harness
 
 PROPERTY = "C01"
-PRELUDE = ["../common/base.rs", "prelude.rs", "vfs_specs.rs"]
+PRELUDE = ["../common/base.rs", "prelude.rs", "vfs_specs.rs", "tree_archiver.rs"]
 V = "crates/core/src/vfs.rs"
 
 UNITS = [
@@ -103,5 +103,80 @@ UNITS = [
 """},
          ),
 ]
+# ---- TreeArchiver: the snapshot's trees are assembled from exactly the items fed; a directory's subtree id is the
+#      hash of its serialized children; a tree blob is handed to the packer under its own hash unless it is already there
+TA = "crates/core/src/archiver/tree_archiver.rs"
+TR = "crates/core/src/blob/tree.rs"
+R_ERR = Rw("", "verr()", count=None, kind="err", why="RusticError construction (kind/message/context dropped)")
+R_MAPERR = Rw("", "", count=None, kind="maperr", why=".map_err(<error building closure>) -> .vmap_err()")
+R_LOG = Rw("", "", count=None, kind="log", why="logging removed")
+R_ATTRS = Rw("", "", count=None, kind="attrs", optional=True, why="derive helper attributes removed")
+WTA = dict(wrap_open="impl TreeArchiver {", wrap_close="}")
+UNITS += [
+    Unit(name="ParentResult", file="crates/core/src/archiver/parent.rs", kind="type", anchor="pub(crate) enum ParentResult<T> {", rewrites=[R_ATTRS]),
+    Unit(name="TreeType", file="crates/core/src/archiver/tree.rs", kind="type", anchor="pub(crate) enum TreeType<T, U> {",
+         rewrites=[R_ATTRS, Rw("PathBuf", "PathR", count=None, why="PathBuf -> opaque path stub")]),
+    Unit(name="tree_new", file=TR, anchor="pub(crate) const fn new() -> Self", within="impl Tree {", ret_name="r",
+         wrap_open="impl Tree {", wrap_close="}", functions=["blob::tree::Tree::new"],
+         contract="\n    ensures r.nodes@ == Seq::<Node>::empty(),\n"),
+    Unit(name="tree_add", file=TR, anchor="pub(crate) fn add(&mut self, node: Node)", within="impl Tree {",
+         wrap_open="impl Tree {", wrap_close="}", functions=["blob::tree::Tree::add"],
+         contract="\n    ensures final(self).nodes@ == old(self).nodes@.push(node),\n"),
+    Unit(name="ta_add_file", file=TA, anchor="fn add_file(&mut self, path: &Path, node: Node, parent: &ParentResult<()>, size: u64)", **WTA,
+         functions=["archiver::tree_archiver::TreeArchiver::add_file"],
+         rewrites=[R_LOG, Rw("path: &Path,", "path: &PathR,", sig=True, why="Path -> opaque path stub")],
+         contract="""
+    requires counters_have_room(old(self).summary, size as int),
+    ensures
+        /*@file_node_appended_to_current_tree*/ final(self).tree.nodes@ == old(self).tree.nodes@.push(node),
+        /*@add_file_frame*/ final(self).stack == old(self).stack && final(self).tree_packer == old(self).tree_packer && final(self).index == old(self).index,
+"""),
+    Unit(name="ta_backup_tree", file=TA, anchor="fn backup_tree(&mut self, path: &Path, parent: &ParentResult<TreeId>) -> RusticResult<TreeId>", ret_name="r", **WTA,
+         functions=["archiver::tree_archiver::TreeArchiver::backup_tree"],
+         rewrites=[R_LOG, R_MAPERR, R_ERR,
+                   Rw("path: &Path,", "path: &PathR,", sig=True, why="Path -> opaque path stub"),
+                   Rw("let dirsize_bytes = ByteSize(dirsize).display().iec().to_string();", "let dirsize_bytes = ();", why="human-readable size, used only in the removed log lines"),
+                   Rw("self.tree_packer.add(chunk.into(), id.into())?;", "self.tree_packer.vadd(chunk, id)?;", why="Packer::add (channel to the packer thread) -> effect log; Vec<u8> -> Bytes and TreeId -> BlobId conversions dropped"),
+         ],
+         contract="""
+    requires counters_have_room(old(self).summary, TREE_SER(old(self).tree.nodes@).len() as int),
+    ensures
+        /*@tree_id_is_hash_of_serialized_tree*/ r matches Ok(id) ==> id == tree_id_of(old(self).tree.nodes@),
+        // the tree blob is in the repository afterwards: it is the parent's very tree, or the index has it, or it was handed to the packer
+        /*@tree_blob_available*/ r matches Ok(id) ==> (*parent matches ParentResult::Matched(p) && p == id) || old(self).index.trees().contains(id)
+            || final(self).tree_packer.added@ == old(self).tree_packer.added@.push((TREE_SER(old(self).tree.nodes@), id)),
+        /*@packer_gets_at_most_this_tree*/ final(self).tree_packer.added@ == old(self).tree_packer.added@
+            || final(self).tree_packer.added@ == old(self).tree_packer.added@.push((TREE_SER(old(self).tree.nodes@), tree_id_of(old(self).tree.nodes@))),
+        /*@backup_tree_frame*/ final(self).tree == old(self).tree && final(self).stack == old(self).stack && final(self).index == old(self).index,
+"""),
+    Unit(name="ta_add", file=TA, anchor="pub(crate) fn add(&mut self, item: TreeItem) -> RusticResult<()>", ret_name="r", **WTA,
+         functions=["archiver::tree_archiver::TreeArchiver::add"],
+         rewrites=[R_LOG,
+                   Rw(r"\.ok_or_else\(\|\| \{.*?\}\)\?", ".vok_or_verr()?", regex=True, why="Option::ok_or_else(|| <error>) -> stub"),
+                   R_ERR,
+                   Rw("std::mem::replace(&mut self.tree, Tree::new())", "vmem_replace_tree(&mut self.tree, Tree::new())", why="std::mem::replace"),
+         ],
+         contract="""
+    requires
+        counters_have_room(old(self).summary, TREE_SER(old(self).tree.nodes@).len() as int),
+        item matches TreeType::Other(x) ==> counters_have_room(old(self).summary, x.2.1 as int),
+    ensures
+        /*@new_tree_pushes_current*/ item matches TreeType::NewTree(x) ==> r is Ok && final(self).tree.nodes@ == Seq::<Node>::empty()
+            && final(self).stack@ == old(self).stack@.push((x.0, x.1, x.2, old(self).tree)),
+        /*@end_tree_links_subtree_by_hash*/ (item is EndTree && r is Ok) ==> old(self).stack@.len() > 0 && ({
+            let top = old(self).stack@.last();
+            &&& final(self).stack@ == old(self).stack@.drop_last()
+            &&& final(self).tree.nodes@ == top.3.nodes@.push(Node { subtree: Some(tree_id_of(old(self).tree.nodes@)), ..top.1 })
+        }),
+        /*@end_tree_on_empty_stack_is_error*/ (item is EndTree && old(self).stack@.len() == 0) ==> r is Err,
+        /*@other_appends_node*/ item matches TreeType::Other(x) ==> r is Ok && final(self).tree.nodes@ == old(self).tree.nodes@.push(x.1) && final(self).stack == old(self).stack,
+"""),
+]
+
 KANI = []
-META = {"not_covered": []}
+META = {"not_covered": [
+    "FileArchiver::backup_reader (iterator adapters with capturing closures), Archiver::archive (threads/channels), TreeArchiver::finalize (`mut self`)",
+    "Tree::serialize (serde_json) and the node metadata / name escaping (strings, serde): uninterpreted",
+    "restore writer, dump, metadata application; the composition of the kernels into backup -> restore",
+    "summary counters assumed not to wrap (u64 sums of one run)",
+]}
